@@ -1,6 +1,7 @@
 #!/bin/bash
 # sweep.sh <ID> <tier> <var> <from> <to>: run a check over a range of seeds, print only findings
 cd "$(dirname "$0")"
+export VERIF_ROOT="$(pwd)"
 ID=$1; TIER=$2; VAR=$3; A=$4; B=$5
 ./build.sh $ID
 for s in $(seq $A $B); do
